@@ -75,6 +75,12 @@ func runC05(r *Run) {
 	mode := t.Pick([]int{6, 2, 2, 2, 3}, "limit-kind") // script, aimd, vegas, gradient2, settable (changed from outside)
 	initial := 1 + t.Intn(40, "initial")
 	stratInit := 1 + t.Intn(40, "strategy-initial")
+	if t.Chance(10, "strategy-initial-non-positive") {
+		stratInit = []int{0, -3, 0}[t.Intn(3, "strategy-initial-np")] // "let the limiter set it": the estimate is pushed right after construction
+		if mode == 0 && t.Chance(60, "initial-estimate-equals-it") {
+			initial = stratInit // the scripted algorithm starts at that very (non-positive) estimate: enforcement must still be floored at 1
+		}
+	}
 	reg := &RecRegistry{}
 	var strat core.Strategy
 	var simple *strategy.SimpleStrategy
@@ -375,6 +381,28 @@ func runC05(r *Run) {
 			return // the estimate moves between windows by design; only completed updates are checked (event log below)
 		}
 		check("stable point at t=" + fmtDur(s.Now()))
+	}
+	s.OnQuiescent = func() {
+		// also while goroutines spawned by the limiter are still pending: with no caller inside an operation every
+		// update that has been reported is complete, and enforcement must already follow the estimate
+		if settable != nil {
+			return
+		}
+		for _, tk := range tasks {
+			if tk.MidOp() {
+				return
+			}
+		}
+		pending := false
+		for _, tk := range s.tasks {
+			if tk.adopted && tk.parked() {
+				pending = true
+			}
+		}
+		if pending {
+			r.Probe("checked_with_library_goroutine_pending")
+			check("t=" + fmtDur(s.Now()) + ", no caller inside an operation (a goroutine spawned by the limiter is still pending)")
+		}
 	}
 	s.Run()
 	r.VirtNs = s.Now()
